@@ -48,18 +48,30 @@ Notation inst_DG_rstep := (DG_rstep flat_fs flat_write inst_exec inst_resp_fail 
 
 Definition truthful_pl (p : payload) : Prop := truthful_in f m (RPdu p).
 
-(* once a success claim has been emitted the receiving filestore holds f and is frozen *)
-Definition LO (l : lstate) : Prop :=
-  (exists o, In o (l_racc l) /\ success_out o) ->
+(* the receiving filestore holds f under the destination name, for good *)
+Definition DLV (l : lstate) : Prop :=
   flat_lookup (r_fs (l_r l)) (md_dst m) = Some f /\
   (r_state (l_r l) = TTerminated \/ not_recv flat_fs (l_r l)).
+(* once a success claim has been emitted the receiving filestore holds f and is frozen *)
+Definition LO (l : lstate) : Prop := (exists o, In o (l_racc l) /\ success_out o) -> DLV l.
+(* the same for the sending entity's success indications *)
+Definition LOS (l : lstate) : Prop := (exists o, In o (l_sacc l) /\ s_success o) -> DLV l.
+(* every Finished PDU in flight that says Retained / Complete is backed by the delivered file *)
+Definition fin_backed (l : lstate) (p : payload) : Prop :=
+  match p with PFinished fn => fin_fs fn = FRetained -> fin_dc fn = DComplete -> DLV l | _ => True end.
 
 Definition LI (l : lstate) : Prop :=
   S7 (l_s l) /\ SE f m (l_s l) /\
   Forall truthful_pl (l_sr l) /\
   DGi (l_r l) /\ (l_rdead l = false -> DUi (l_r l)) /\
   (r_state (l_r l) = TTerminated -> l_rdead l = true) /\
-  LO l.
+  LO l /\
+  SF (DLV l) (l_s l) /\ Forall (fin_backed l) (l_rs l) /\ LOS l.
+
+Lemma SF_mono (P Q : Prop) s : (P -> Q) -> SF P s -> SF Q s.
+Proof. unfold SF. intros H (A & B). split; [auto|exact B]. Qed.
+Lemma fin_backed_mono l l' p : (DLV l -> DLV l') -> fin_backed l p -> fin_backed l' p.
+Proof. unfold fin_backed. destruct p; auto. Qed.
 
 (* what a sender satisfying S7 and SE emits is truthful *)
 Lemma sender_outputs_truthful (s : sstate) : S7 s -> SE f m s -> Forall truthful_pl (pdus_of (rev (s_out s))).
@@ -75,21 +87,30 @@ Proof.
   - exact P.
 Qed.
 
-Lemma LI_sstep o l : LI l -> LI (l_sstep o l).
+Lemma LI_sstep o l : LI l ->
+  (forall fn, o = SPdu (PFinished fn) -> fin_backed l (PFinished fn)) -> LI (l_sstep o l).
 Proof.
-  intros H. unfold l_sstep. destruct (l_sdead l); [exact H|].
-  destruct H as (A & B & C & D & E & F & G).
+  intros H Hfin. unfold l_sstep. destruct (l_sdead l); [exact H|].
+  destruct H as (A & B & C & D & E & F & G & SFl & LFl & LSl).
   pose proof (S7_sstep inst_cksum inst_tlv_len inst_tlv_len (l_now l) o (l_s l) A) as A'.
   pose proof (SE_sstep inst_cksum inst_tlv_len inst_tlv_len f m (l_now l) o (l_s l) B) as B'.
+  assert (SF' : SF (DLV l) (fst (sstep inst_cksum inst_tlv_len inst_tlv_len (l_now l) o (l_s l)))).
+  { apply (SF_sstep inst_cksum inst_tlv_len inst_tlv_len f (DLV l)); [exact SFl|]. intros fn Eo. exact (Hfin fn Eo). }
   unfold inst_sstep. destruct (sstep inst_cksum inst_tlv_len inst_tlv_len (l_now l) o (l_s l)) as [s' r].
-  cbn [fst] in A', B'. unfold LI, LO. cbn. splits; auto.
-  destruct (l_cut_sr l); [exact C|]. apply Forall_app. split; [exact C|apply sender_outputs_truthful; assumption].
+  cbn [fst] in A', B', SF'. unfold LI, LO, LOS. cbn. splits; auto.
+  - destruct (l_cut_sr l); [exact C|]. apply Forall_app. split; [exact C|apply sender_outputs_truthful; assumption].
+  - intros (x & Hin & Hs). apply in_app_or in Hin as [Hin|Hin]; [apply LSl; exists x; split; assumption|].
+    apply in_rev in Hin. destruct SF' as (S1 & S2). rewrite Forall_forall in S2. destruct (S2 x Hin Hs) as (X & Y). exact (S1 X Y).
 Qed.
+
+Lemma DLV_persist l l' : DLV l -> r_fs (l_r l') = r_fs (l_r l) ->
+  (r_state (l_r l') = TTerminated \/ not_recv flat_fs (l_r l')) -> DLV l'.
+Proof. unfold DLV. intros (A & _) E H. rewrite E. split; assumption. Qed.
 
 Lemma LI_rstep o l : LI l -> truthful_in f m o -> LI (l_rstep o l).
 Proof.
   intros H Ht. unfold l_rstep. destruct (l_rdead l) eqn:Ed; [exact H|].
-  destruct H as (A & B & C & D & E & F & G). specialize (E Ed).
+  destruct H as (A & B & C & D & E & F & G & SFl & LFl & LSl). specialize (E Ed).
   pose proof (inst_DG_rstep (l_now l) o (l_r l) E Ht) as D'.
   pose proof (DG_outputs _ _ _ _ _ D') as Ho. pose proof (DG_frozen _ _ _ _ _ D') as Hf.
   assert (Hfr : not_recv flat_fs (l_r l) ->
@@ -98,23 +119,49 @@ Proof.
                           inst_tlv_len inst_tlv_len (l_now l) o (l_r l) Hn) as (X & Y & _). split; assumption. }
   unfold inst_rstep in *. destruct (rstep flat_fs flat_write inst_exec inst_resp_fail inst_not_performed inst_cksum
                                       inst_tlv_len inst_tlv_len (l_now l) o (l_r l)) as [r' res].
-  cbn [fst] in *. unfold LI, LO. cbn. splits; auto.
-  - intros Hd. apply orb_false_elim in Hd as (_ & Hd).
+  cbn [fst] in *.
+  (* a delivery that held before this step still holds after it *)
+  set (l' := mkL (l_s l) r' (l_sr l) (if l_cut_rs l then l_rs l else l_rs l ++ pdus_of (rev (r_out r')))
+                 (l_sdead l) (is_err res || tstate_eqb (r_state r') TTerminated) (l_cut_sr l) (l_cut_rs l) (l_now l)
+                 (l_sacc l) (l_racc l ++ rev (r_out r')) (l_sres l) res (l_iters l)).
+  assert (Hkeep : DLV l -> DLV l').
+  { intros (G1 & [G2|G2]); [rewrite (F G2) in Ed; discriminate|].
+    destruct (Hfr G2) as (X & Y). unfold DLV, l'. cbn. rewrite X. split; [exact G1|right; exact Y]. }
+  assert (Hnew : forall x, In x (r_out r') -> success_out x -> DLV l').
+  { intros x Hin Hs. rewrite Forall_forall in Ho. unfold DLV, l'. cbn. split; [apply (Ho x Hin Hs)|].
+    apply Hf. exists x. split; assumption. }
+  change (LI l'). unfold LI. splits.
+  - exact A.
+  - exact B.
+  - exact C.
+  - exact D'.
+  - change (l_rdead l') with (is_err res || tstate_eqb (r_state r') TTerminated). change (l_r l') with r'.
+    intros Hd. apply orb_false_elim in Hd as (_ & Hd).
     destruct D' as [D'|(Hterm & _)]; [exact D'|]. rewrite Hterm in Hd. discriminate.
-  - intros Hterm. rewrite Hterm. cbn. apply orb_true_r.
-  - intros (x & Hin & Hs). apply in_app_or in Hin as [Hin|Hin].
-    + (* an earlier success: the filestore was frozen *)
-      destruct (G (ex_intro _ x (conj Hin Hs))) as (G1 & [G2|G2]).
-      * rewrite (F G2) in Ed. discriminate.
-      * destruct (Hfr G2) as (X & Y). rewrite X. split; [exact G1|right; exact Y].
-    + apply in_rev in Hin. rewrite Forall_forall in Ho. split; [apply (Ho x Hin Hs)|].
-      apply Hf. exists x. split; assumption.
+  - change (l_rdead l') with (is_err res || tstate_eqb (r_state r') TTerminated). change (l_r l') with r'.
+    intros Hterm. rewrite Hterm. cbn. apply orb_true_r.
+  - unfold LO. change (l_racc l') with (l_racc l ++ rev (r_out r')).
+    intros (x & Hin & Hs). apply in_app_or in Hin as [Hin|Hin].
+    + apply Hkeep. apply G. exists x. split; assumption.
+    + apply in_rev in Hin. apply (Hnew x Hin Hs).
+  - change (l_s l') with (l_s l). eapply SF_mono; [exact Hkeep|exact SFl].
+  - change (l_rs l') with (if l_cut_rs l then l_rs l else l_rs l ++ pdus_of (rev (r_out r'))).
+    assert (Hold : Forall (fin_backed l') (l_rs l)).
+    { eapply Forall_impl; [|exact LFl]. intros p Hp. eapply fin_backed_mono; [exact Hkeep|exact Hp]. }
+    destruct (l_cut_rs l); [exact Hold|]. apply Forall_app. split; [exact Hold|].
+    apply Forall_forall. intros p Hp. unfold pdus_of in Hp. apply in_flat_map in Hp as (x & Hx & Hp).
+    apply in_rev in Hx. destruct x as [pd|i]; [|destruct Hp]. destruct Hp as [Hp|[]]. subst p.
+    unfold fin_backed. destruct (o_payload pd) eqn:Epl; try exact I. intros Hfs Hdc.
+    apply (Hnew (OPdu pd) Hx). unfold success_out. rewrite Epl. split; assumption.
+  - unfold LOS. change (l_sacc l') with (l_sacc l). intros Hx. apply Hkeep. apply LSl. exact Hx.
 Qed.
 
-Lemma LI_queues sr rs l : LI l -> (forall p, In p sr -> In p (l_sr l)) -> LI (set_queues sr rs l).
+Lemma LI_queues sr rs l : LI l -> (forall p, In p sr -> In p (l_sr l)) -> (forall p, In p rs -> In p (l_rs l)) ->
+  LI (set_queues sr rs l).
 Proof.
-  intros (A & B & C & D & E & F & G) Hsub. unfold LI, LO. cbn. splits; auto.
-  rewrite Forall_forall in *. auto.
+  intros (A & B & C & D & E & F & G & SFl & LFl & LSl) Hsub Hsub2. unfold LI, LO, LOS. cbn. splits; auto.
+  - rewrite Forall_forall in *. auto.
+  - rewrite Forall_forall in *. intros p Hp. apply (LFl p (Hsub2 p Hp)).
 Qed.
 Lemma LI_cuts a b l : LI l -> LI (set_cuts a b l).
 Proof. intros H. exact H. Qed.
@@ -124,34 +171,44 @@ Lemma LI_iters k l : LI l -> LI (set_iters k l).
 Proof. intros H. exact H. Qed.
 Lemma LI_clear l : LI l -> LI (clear_acc l).
 Proof.
-  intros (A & B & C & D & E & F & G). unfold LI, LO. cbn. splits; auto. intros (o & [] & _).
+  intros (A & B & C & D & E & F & G & SFl & LFl & LSl). unfold LI, LO, LOS. cbn. splits; auto; intros (o & [] & _).
 Qed.
 
-Lemma LI_deliver to_recv p l : LI l -> (to_recv = true -> truthful_pl p) -> LI (deliver to_recv p l).
+Lemma LI_deliver to_recv p l : LI l -> (to_recv = true -> truthful_pl p) -> (to_recv = false -> fin_backed l p) ->
+  LI (deliver to_recv p l).
 Proof.
-  intros H Hp. unfold deliver. destruct to_recv; [apply LI_rstep; [exact H|apply Hp; reflexivity]|apply LI_sstep; exact H].
+  intros H Hp Hq. unfold deliver. destruct to_recv; [apply LI_rstep; [exact H|apply Hp; reflexivity]|].
+  apply LI_sstep; [exact H|]. intros fn E. inversion E; subst. apply Hq. reflexivity.
 Qed.
 
 Lemma LI_head l p q : LI l -> l_sr l = p :: q -> truthful_pl p /\ (forall x, In x q -> In x (l_sr l)).
 Proof.
   intros (_ & _ & C & _) E. rewrite E in *. inversion C; subst. split; [assumption|]. intros x Hx. right. exact Hx.
 Qed.
+Lemma LI_rs_in l p : LI l -> In p (l_rs l) -> fin_backed l p.
+Proof. intros (_ & _ & _ & _ & _ & _ & _ & _ & LFl & _) Hin. rewrite Forall_forall in LFl. auto. Qed.
+Lemma no_spdu u fn : sop_of u <> SPdu (PFinished fn).
+Proof. destruct u; discriminate. Qed.
 
 Lemma LI_run1 l l' : LI l -> run1 l = Some l' -> LI l'.
 Proof.
   intros H. unfold run1.
-  destruct (s_alive l && s_has_pdu_to_send (l_s l)); [intros E; injection E as E; subst l'; apply LI_sstep; exact H|].
+  destruct (s_alive l && s_has_pdu_to_send (l_s l));
+    [intros E; injection E as E; subst l'; apply LI_sstep; [exact H|intros fn X; discriminate]|].
   destruct (r_alive l && has_pdu_to_send (l_r l)); [intros E; injection E as E; subst l'; apply LI_rstep; [exact H|exact I]|].
   destruct (l_sr l) as [|p q] eqn:Esr.
   2: { intros E. injection E as E. subst l'. destruct (LI_head l p q H Esr) as (Hp & Hq).
-       apply (LI_deliver true p (set_queues q (l_rs l) l)); [apply LI_queues; [exact H|exact Hq]|intros _; exact Hp]. }
+       apply (LI_deliver true p (set_queues q (l_rs l) l)); [apply LI_queues; [exact H|exact Hq|auto]|intros _; exact Hp|intros X; discriminate]. }
   destruct (l_rs l) as [|p q] eqn:Ers.
-  2: { intros E. injection E as E. subst l'. apply (LI_deliver false p (set_queues [] q l)); [apply LI_queues; [exact H|]|intros Hx; discriminate].
-       intros x []. }
+  2: { intros E. injection E as E. subst l'.
+       assert (Hb : fin_backed l p) by (apply LI_rs_in; [exact H|rewrite Ers; left; reflexivity]).
+       apply (LI_deliver false p (set_queues [] q l)); [apply LI_queues; [exact H| |]|intros Hx; discriminate|intros _; exact Hb].
+       - intros x [].
+       - intros x Hx. rewrite Ers. right. exact Hx. }
   destruct (omin2 _ _) as [d|]; [|discriminate]. intros E. injection E as E. subst l'.
   set (l1 := set_now (l_now l + d) l). assert (H1 : LI l1) by exact H.
   set (l2 := if s_alive l1 && is_zero (s_until_timeout (l_now l1) (l_s l1)) then l_sstep STimeout l1 else l1).
-  assert (H2 : LI l2) by (unfold l2; destruct (_ && _); [apply LI_sstep|]; exact H1).
+  assert (H2 : LI l2) by (unfold l2; destruct (_ && _); [apply LI_sstep; [|intros fn X; discriminate]|]; exact H1).
   change (LI (if r_alive l2 && is_zero (until_timeout (l_now l2) (l_r l2)) then l_rstep RTimeout l2 else l2)).
   clearbody l2.
   destruct (r_alive l2 && is_zero (until_timeout (l_now l2) (l_r l2))); [apply LI_rstep; [exact H2|exact I]|exact H2].
@@ -167,22 +224,26 @@ Theorem LI_lstep o l : LI l -> LI (lstep o l).
 Proof.
   intros H0. unfold lstep. pose proof (LI_clear l H0) as H. remember (clear_acc l) as l0 eqn:E0. clear E0 H0 l.
   destruct o.
-  - apply LI_sstep. exact H.
+  - apply LI_sstep; [exact H|]. intros fn X. exfalso. exact (no_spdu u fn X).
   - destruct (rop_of u) as [o|] eqn:Eo; [|exact H]. apply LI_rstep; [exact H|].
     destruct u; inversion Eo; exact I.
   - destruct to_recv.
     + destruct (pick k (l_sr l0)) as [[p q]|] eqn:Ep; [|exact H]. destruct (pick_spec _ _ _ _ Ep) as (Hin & Hsub).
-      apply LI_deliver; [apply LI_queues; assumption|]. intros _.
-      destruct H as (_ & _ & C & _). rewrite Forall_forall in C. apply C. exact Hin.
-    + destruct (pick k (l_rs l0)) as [[p q]|] eqn:Ep; [|exact H].
-      apply LI_deliver; [apply LI_queues; [exact H|auto]|intros Hx; discriminate].
+      apply (LI_deliver true p (set_queues q (l_rs l0) l0)); [apply LI_queues; [exact H|exact Hsub|auto]| |intros X; discriminate].
+      intros _. destruct H as (_ & _ & C & _). rewrite Forall_forall in C. apply C. exact Hin.
+    + destruct (pick k (l_rs l0)) as [[p q]|] eqn:Ep; [|exact H]. destruct (pick_spec _ _ _ _ Ep) as (Hin & Hsub).
+      apply (LI_deliver false p (set_queues (l_sr l0) q l0)); [apply LI_queues; [exact H|auto|exact Hsub]|intros Hx; discriminate|].
+      intros _. apply (LI_rs_in l0 p H Hin).
   - destruct (pick k (if to_recv then l_sr l0 else l_rs l0)) as [[p q]|] eqn:Ep; [|exact H].
-    apply LI_deliver; [exact H|]. intros Hr. subst to_recv. destruct (pick_spec _ _ _ _ Ep) as (Hin & _).
-    destruct H as (_ & _ & C & _). rewrite Forall_forall in C. apply C. exact Hin.
+    destruct (pick_spec _ _ _ _ Ep) as (Hin & _).
+    apply LI_deliver; [exact H| |].
+    + intros Hr. subst to_recv. destruct H as (_ & _ & C & _). rewrite Forall_forall in C. apply C. exact Hin.
+    + intros Hr. subst to_recv. apply (LI_rs_in l0 p H Hin).
   - destruct to_recv.
     + destruct (pick k (l_sr l0)) as [[p q]|] eqn:Ep; [|exact H]. destruct (pick_spec _ _ _ _ Ep) as (_ & Hsub).
-      apply LI_queues; assumption.
-    + destruct (pick k (l_rs l0)) as [[p q]|] eqn:Ep; [|exact H]. apply LI_queues; [exact H|auto].
+      apply LI_queues; [exact H|exact Hsub|auto].
+    + destruct (pick k (l_rs l0)) as [[p q]|] eqn:Ep; [|exact H]. destruct (pick_spec _ _ _ _ Ep) as (_ & Hsub).
+      apply LI_queues; [exact H|auto|exact Hsub].
   - destruct to_recv; exact H.
   - exact H.
   - apply LI_run. exact H.
@@ -190,7 +251,7 @@ Qed.
 
 Lemma LI_init now cfg np : md_size m = N.of_nat (length f) -> 0 < cfg_seg cfg -> LI (l_new now cfg np m f).
 Proof.
-  intros Hs Hseg. unfold LI, LO, l_new. cbn. splits.
+  intros Hs Hseg. unfold LI, LO, LOS, l_new. cbn [l_s l_r l_sr l_rs l_rdead l_racc l_sacc]. splits.
   - apply S7_init; assumption.
   - apply SE_init.
   - constructor.
@@ -198,20 +259,25 @@ Proof.
   - intros _. apply DU_init.
   - intros Hx. discriminate.
   - intros (o & [] & _).
+  - apply (SF_init inst_tlv_len inst_tlv_len f).
+  - constructor.
+  - intros (o & Hin & Hs'). apply in_rev in Hin. cbn in Hin. destruct Hin as [Hin|[]]. subst o. destruct Hs'.
 Qed.
 
 (* C01 over the whole system: for every script of link and user behaviour *)
 Theorem system_delivered now cfg np ops : md_size m = N.of_nat (length f) -> 0 < cfg_seg cfg ->
   let l := lrun ops (l_new now cfg np m f) in
   Forall truthful_pl (l_sr l) /\
-  forall o, In o (l_racc l) -> success_out o -> flat_lookup (r_fs (l_r l)) (md_dst m) = Some f.
+  (forall o, In o (l_racc l) -> success_out o -> flat_lookup (r_fs (l_r l)) (md_dst m) = Some f) /\
+  (forall o, In o (l_sacc l) -> s_success o -> flat_lookup (r_fs (l_r l)) (md_dst m) = Some f).
 Proof.
   intros Hs Hseg. cbn zeta.
   assert (H : LI (lrun ops (l_new now cfg np m f))).
   { unfold lrun. generalize (LI_init now cfg np Hs Hseg). generalize (l_new now cfg np m f).
     induction ops as [|o t IH]; intros l H; cbn [fold_left]; [exact H|]. apply IH. apply LI_lstep. exact H. }
-  destruct H as (_ & _ & C & _ & _ & _ & G). split; [exact C|].
-  intros o Hin Hsucc. apply G. exists o. split; assumption.
+  destruct H as (_ & _ & C & _ & _ & _ & G & _ & _ & LSl). split; [exact C|]. split.
+  - intros o Hin Hsucc. apply G. exists o. split; assumption.
+  - intros o Hin Hsucc. apply LSl. exists o. split; assumption.
 Qed.
 
 End LinkP.
